@@ -76,6 +76,8 @@ pub struct TlsReport {
     pub subscriber_started: bool,
     /// the server could not load the certificate files it was given
     pub server_start_err: Option<String>,
+    /// the trusted watcher (generator-issued identity, same CA as the server) could not connect or subscribe
+    pub watcher_failed: Option<String>,
     pub notes: Vec<String>,
 }
 
@@ -105,7 +107,7 @@ async fn scenario(world: Rc<World>, sc: TlsScript) -> AResult<TlsReport> {
         ServerId::Trusted => a.clone(),
         ServerId::OtherCa => {
             // certificate and key from the other CA; client certificates are still verified against CA A
-            let mixed = scratch_root().join("mixed-server");
+            let mixed = fresh_scratch("mixed-server");
             std::fs::create_dir_all(&mixed)?;
             std::fs::copy(b.server.join("localhost.der"), mixed.join("localhost.der"))?;
             std::fs::copy(b.server.join("localhost.key.der"), mixed.join("localhost.key.der"))?;
@@ -115,7 +117,7 @@ async fn scenario(world: Rc<World>, sc: TlsScript) -> AResult<TlsReport> {
         ServerId::TrustedFullChain | ServerId::OtherCaFullChain => a.clone(),
     };
     if sc.server == ServerId::OtherCaFullChain {
-        let chain = scratch_root().join("fullchain-other.pem");
+        let chain = fresh_scratch("fullchain-other.pem");
         std::fs::create_dir_all(scratch_root())?;
         std::fs::write(&chain, pem_chain(&[read_der(&b.server.join("localhost.der"))?, read_der(&b.server.join("ca.der"))?]))?;
         if let Err(e) = world.start_server_files(&a.server.join("ca.der"), &chain, &b.server.join("localhost.key.der"), ServerOpts::default()) {
@@ -123,7 +125,7 @@ async fn scenario(world: Rc<World>, sc: TlsScript) -> AResult<TlsReport> {
             return Ok(rep);
         }
     } else if sc.server == ServerId::TrustedFullChain {
-        let chain = scratch_root().join("fullchain.pem");
+        let chain = fresh_scratch("fullchain.pem");
         std::fs::create_dir_all(scratch_root())?;
         std::fs::write(&chain, pem_chain(&[read_der(&a.server.join("localhost.der"))?, read_der(&b.server.join("ca.der"))?]))?;
         if let Err(e) = world.start_server_files(&a.server.join("ca.der"), &chain, &a.server.join("localhost.key.der"), ServerOpts::default()) {
@@ -149,14 +151,14 @@ async fn scenario(world: Rc<World>, sc: TlsScript) -> AResult<TlsReport> {
                     rep.subscriber_started = true;
                     watcher = Some((g, c, s));
                 }
-                Err(e) => rep.notes.push(format!("trusted subscriber could not open: {e}")),
+                Err(e) => rep.watcher_failed = Some(format!("could not open a subscriber: {e}")),
             },
-            Err(e) => rep.notes.push(format!("trusted subscriber could not connect: {e}")),
+            Err(e) => rep.watcher_failed = Some(format!("could not connect: {e:#}")),
         }
         tokio::time::sleep(Duration::from_millis(500)).await;
     }
     // identity files of the client under test (it always trusts CA A)
-    let client_dir = scratch_root().join("client-under-test");
+    let client_dir = fresh_scratch("client-under-test");
     std::fs::create_dir_all(&client_dir)?;
     let trust = if sc.server == ServerId::OtherCaFullChain { &b } else { &a };
     std::fs::copy(trust.client.join("ca.der"), client_dir.join("ca.der"))?;
@@ -254,6 +256,14 @@ pub fn execute(prop: &str, sc: &TlsScript, opts: &ExecOpts) -> Outcome {
                     out.violate(prop, "generated-set-rejected-by-server", &sig, format!("the server could not load the generator's certificate files (renewed in place: {}): {}", sc.renewed_in_place, rep.server_start_err.clone().unwrap_or_default()));
                 }
                 Some(Ok(rep)) => {
+                    if let Some(w) = &rep.watcher_failed {
+                        // generator-issued client and server certificates under one CA
+                        if sc.net.loss_ppm == 0 {
+                            out.violate(prop, "trusted-peer-refused", &format!("{sig}:watcher"), format!("a client with the generator's certificates {w} (set renewed in place: {}, after a first client was built: {})", sc.renewed_in_place, sc.renewed_in_place && sc.renewed_after_first_client));
+                        } else {
+                            out.inconclusive = true;
+                        }
+                    }
                     let should_work = sc.client == ClientId::Trusted && sc.server != ServerId::OtherCa;
                     if sc.renewed_after_first_client && sc.renewed_in_place {
                         out.fault("certificate_set_renewed_after_a_client_was_built");
